@@ -174,6 +174,7 @@ let run_bytes line =
       | "esc_itmz" -> esc esc_itmz s
       | "accept" -> critic_accept s
       | "reject" -> critic_reject s
+      | "unesc" -> xml_as_text s
       | "utf8" -> if valid_utf8 s then [n_of_int 49] else [n_of_int 48]
       | "xmltext" -> if xml_safe false s then [n_of_int 49] else [n_of_int 48]
       | "xmlattr" -> if xml_safe true s then [n_of_int 49] else [n_of_int 48]
@@ -251,6 +252,17 @@ let run_hid line =
   | ["R"; h] -> "- " ^ hex_of_bytes (reference_label (bytes_of_hex h))
   | _ -> "?"
 
+(* ---------- outline: "P|1,2,3" or "-|1,2" (P = text before the first heading) -> tags, levels after import, properly nested? *)
+let run_outline line =
+  match String.split_on_char '|' line with
+  | [p; ls] ->
+    let levels = List.map (fun x -> nat_of_int (int_of_string x)) (split_on ',' ls) in
+    let tags = if p = "P" then OOpen :: export_tags levels [nat_of_int 100] else export_tags levels [] in
+    let ts = String.concat "" (List.map (function OOpen -> "O" | OClose -> "C") tags) in
+    let back = import_levels tags O in
+    ts ^ " " ^ String.concat "," (List.map (fun n -> string_of_int (int_of_nat n)) back) ^ " " ^ (if properly_nested levels then "1" else "0")
+  | _ -> "?"
+
 let () =
   let model = Sys.argv.(1) in
   let f = match model with
@@ -264,6 +276,7 @@ let () =
     | "meta" -> run_meta
     | "anchors" -> run_anchors
     | "hid" -> run_hid
+    | "outline" -> run_outline
     | _ -> failwith "unknown model" in
   try while true do
     let line = input_line stdin in
